@@ -36,10 +36,12 @@ theorem subset_operator : subsetCmp = Cmp.eq
 /-- `remove_feature`: `self.df[feature_id] != value` -/
 theorem remove_operator : removeCmp = Cmp.ne := by decide
 
-/-- `remove_feature`: a scalar is wrapped into a list, then `self.df` is NARROWED value after value
-(`self.df = self.df.loc[self.df[f] != value]`, mask / selection / target are the same frame) -/
+/-- `remove_feature`: the values are made 1-d by `np.atleast_1d(np.asarray(·))` like in `get_motl_subset` (every
+array-like — list, tuple, ndarray, Series, scalar — is a list of values; the former `if not isinstance(v, (list,
+np.ndarray)): v = [v]`, `.listOrArrayElseWrap`, compared a tuple with the whole column: D34), then `self.df` is NARROWED
+value after value (`self.df = self.df.loc[self.df[f] != value]`, mask / selection / target are the same frame) -/
 theorem remove_loop_documented :
-    removeLoop = { iter := .requested, norm := .listOrArrayElseWrap, acc := .narrow, reset := .absent, sameFrame := true } := by
+    removeLoop = { iter := .requested, norm := .atleast1d, acc := .narrow, reset := .absent, sameFrame := true } := by
   decide
 
 /-- `split_by_feature`: `== value` for value in the column's `Series.unique()` (resolved through the
@@ -89,7 +91,8 @@ theorem signatures_documented : signatures =
      "renumber_objects_sequentially(self,starting_number=1)"] := by decide
 
 /-- digests of the WHOLE bodies (canonical form: names of locals, comments, docstrings, layout, type annotations,
-the text of messages and the position of independent constant initialisations are free; every other statement,
+the text of messages, the condition of an `if` that guards nothing but a message, and the position of independent
+constant initialisations are free; every other statement,
 expression, keyword and constant counts) of the functions the property is about,
 including the branches no generated call executes (`write_out`, the `raise` guards): an added,
 removed or changed statement anywhere in them breaks this theorem -/
@@ -101,15 +104,33 @@ theorem bodies_documented : bodyDigests =
      "Motl.load:edb38fc7d294ed1f",
      "Motl.get_unique_values:28140647e59a70cb",
      "Motl.get_motl_subset:fe7033c7a5d40c5f",
-     "Motl.remove_feature:df8075d69a8ae4ab",
+     "Motl.remove_feature:14b1dd8afbed2e2e",
      "Motl.split_by_feature:e3f12653a2a5cd8d",
-     "Motl.get_motl_intersection:0acccafc465b8473",
+     "Motl.get_motl_intersection:6d3f6dce0f2dc40f",
      "Motl.drop_duplicates:1c51d98b933eb2d2",
      "Motl.merge_and_renumber:100e0b30c2873281",
      "Motl.merge_and_drop_duplicates:d401c65488f39abd",
      "Motl.renumber_particles:a0c49ba6c4653385",
      "Motl.renumber_objects_sequentially:3278d3640571aeee",
      "EmMotl.__init__:b84c41fc81e00816"] := by decide
+
+/-! the same digests one function at a time, so that a broken one is NAMED in the list of failing declarations -/
+theorem body_Motl_init_documented : "Motl.__init__:0dac581f53f53068" ∈ bodyDigests := by decide
+theorem body_Motl_create_empty_motl_df_documented : "Motl.create_empty_motl_df:c3586e54117f4b10" ∈ bodyDigests := by decide
+theorem body_Motl_check_df_correct_format_documented : "Motl.check_df_correct_format:1c05710067fcabf5" ∈ bodyDigests := by decide
+theorem body_Motl_check_df_type_documented : "Motl.check_df_type:0173ab6026235504" ∈ bodyDigests := by decide
+theorem body_Motl_load_documented : "Motl.load:edb38fc7d294ed1f" ∈ bodyDigests := by decide
+theorem body_Motl_get_unique_values_documented : "Motl.get_unique_values:28140647e59a70cb" ∈ bodyDigests := by decide
+theorem body_Motl_get_motl_subset_documented : "Motl.get_motl_subset:fe7033c7a5d40c5f" ∈ bodyDigests := by decide
+theorem body_Motl_remove_feature_documented : "Motl.remove_feature:14b1dd8afbed2e2e" ∈ bodyDigests := by decide
+theorem body_Motl_split_by_feature_documented : "Motl.split_by_feature:e3f12653a2a5cd8d" ∈ bodyDigests := by decide
+theorem body_Motl_get_motl_intersection_documented : "Motl.get_motl_intersection:6d3f6dce0f2dc40f" ∈ bodyDigests := by decide
+theorem body_Motl_drop_duplicates_documented : "Motl.drop_duplicates:1c51d98b933eb2d2" ∈ bodyDigests := by decide
+theorem body_Motl_merge_and_renumber_documented : "Motl.merge_and_renumber:100e0b30c2873281" ∈ bodyDigests := by decide
+theorem body_Motl_merge_and_drop_duplicates_documented : "Motl.merge_and_drop_duplicates:d401c65488f39abd" ∈ bodyDigests := by decide
+theorem body_Motl_renumber_particles_documented : "Motl.renumber_particles:a0c49ba6c4653385" ∈ bodyDigests := by decide
+theorem body_Motl_renumber_objects_sequentially_documented : "Motl.renumber_objects_sequentially:3278d3640571aeee" ∈ bodyDigests := by decide
+theorem body_EmMotl_init_documented : "EmMotl.__init__:b84c41fc81e00816" ∈ bodyDigests := by decide
 
 /-- no class of `cryomotl.py` other than `Motl` (re)defines one of the anchored methods: the lists users hold are
 `EmMotl` / `RelionMotl` / `StopgapMotl` / `DynamoMotl` instances and run the anchored `Motl.<method>` bodies -/
@@ -118,8 +139,14 @@ theorem no_subclass_overrides : subclassOverrides = [] := by decide
 /-- the class methods return `cls(<frame>)`: every subclass constructor hands a DataFrame to `check_df_type` (a frame
 with the 20 columns is taken as it is, row labels reset, missing values filled) -/
 theorem subclass_constructors_documented : subclassConstructors =
-    ["EmMotl:self.check_df_type(<frame>)", "StopgapMotl:self.check_df_type(<frame>)",
-     "RelionMotl:self.check_df_type(<frame>)", "DynamoMotl:self.check_df_type(<frame>)"] := by decide
+    ["EmMotl:self.check_df_type(<frame>)", "RelionMotl:self.check_df_type(<frame>)",
+     "StopgapMotl:self.check_df_type(<frame>)", "DynamoMotl:self.check_df_type(<frame>)",
+     "ModMotl:self.check_df_type(<frame>)"] := by decide
+
+/-- the classes of `cryomotl.py` whose base chain reaches `Motl`, DERIVED from the source: exactly the five the generator
+uses as receivers of the class methods and as classes of the starting list (`SUBCLASSES` in `harness/props/c08.py`) and
+`subclass_constructors_documented` anchors.  A new list class breaks this theorem until it has a stream. -/
+theorem subclasses_documented : motlSubclasses = ["EmMotl", "RelionMotl", "StopgapMotl", "DynamoMotl", "ModMotl"] := by decide
 
 /-- `renumber_particles`: `subtomo_id := 1 .. len` -/
 theorem renumber_particles_documented : renumberParticlesFirst = 1
